@@ -9,6 +9,8 @@ readable; read-back must be within the type's quantum.
 """
 from __future__ import annotations
 
+from xml.sax.saxutils import quoteattr
+
 import decimal
 import fractions
 import math
@@ -878,7 +880,10 @@ def run_defaults(acc):
     m = xsdkit.model()
     for T, cls in sorted(introspect.registrations().items()):
         for d in introspect.attr_decls(cls):
-            if d["required"] or d["default"] is None:
+            if d["required"]:
+                _required_but_defaulted(m, T, cls, d, acc)
+                continue
+            if d["default"] is None:
                 continue
             sds = set()
             for tau in sorted({t for t in m.elem_decls.get(T, {}).values() if t and m.is_complex(t)}):
@@ -907,6 +912,46 @@ def run_defaults(acc):
             same = want == dv if hasattr(st, "__members__") or isinstance(dv, (str, bool)) else close(st.__name__, dv, want)
             if not same:
                 acc.violation("declared-default-differs-from-schema:%s" % ident, "%s: the class declares default %r, the schema %r (= %r): a value the setter drops as 'default' means something else to every other reader" % (ident, dv, sd, want), {"T": T, "prop": d["prop"], "default": sd})
+
+
+def _required_but_defaulted(m, T, cls, d, acc):
+    """An attribute the class declares REQUIRED and the schema declares optional WITH a default: the omitted form is a
+    schema-valid form of that default ('<c:size/>' is marker size 5) and must read as it through the real element class."""
+    from pptx.oxml import parse_xml
+    from vlib import xsdkit
+
+    uses = set()
+    for tau in sorted({t for t in m.elem_decls.get(T, {}).values() if t and m.is_complex(t)}):
+        a = m.attributes(tau).get(d["clark"])
+        uses.add(None if a is None else (a[1], a[2]))
+    if not uses or None in uses or len(uses) != 1:
+        return
+    use, sd = uses.pop()
+    if use == "required" or sd is None:
+        acc.count("required_attributes_the_schema_requires_too" if use == "required" else "required_attributes_optional_without_default_in_the_schema")
+        return
+    ident = "%s/@%s" % (xsdkit.pfx_tag(T), d["attr"])
+    acc.count("required_attributes_the_schema_defaults")
+    acc.case(desc={"attr": ident, "schema_default": sd, "form": "omitted"}, nontrivial=True, cls="default")
+    q = etree_qname(T)
+    el = parse_xml("<x:%s xmlns:x=%s/>" % (q[1], quoteattr(q[0])))
+    st = d["simple_type"]
+    try:
+        want = st.from_xml(sd)
+        got = getattr(el, d["prop"])
+    except Exception as e:  # noqa
+        acc.violation("omitted-defaulted-attribute-unreadable:%s" % ident, "%s omitted (schema: optional, default %r): reading raised %r" % (ident, sd, e), {"T": T, "prop": d["prop"], "default": sd})
+        return
+    same = want == got if hasattr(st, "__members__") or isinstance(got, (str, bool)) or got is None else close(st.__name__, got, want)
+    if not same:
+        acc.violation("omitted-defaulted-attribute-misread:%s" % ident, "%s omitted reads %r, the schema default is %r" % (ident, got, sd), {"T": T, "prop": d["prop"], "default": sd})
+
+
+def etree_qname(T):
+    from lxml import etree
+
+    q = etree.QName(T)
+    return q.namespace, q.localname
 
 
 def run_corpus(unit, acc):
